@@ -44,6 +44,11 @@ def load_configs():
         return json.load(f)["configs"]
 
 
+# configurations whose temporal properties (termination, success) are model-checked under fairness
+LIVE_CONFIGS = ("ack", "ack-lim3", "imm", "drop2", "drop2-imm", "unack", "unackc", "cancelS", "cancelR", "cancelS-unackc", "cancelR-unackc",
+                "black", "black-unackc", "black-imm", "to-grid-a", "to-grid-b", "defd", "immd")
+
+
 def model(conf, tier, workdir, workers):
     """TLC on one configuration -> dict(states, transitions, depth, scripts, mviol, wall); cached by spec hash"""
     faults = conf["faults"][0 if tier == "quick" else 1]
@@ -76,6 +81,41 @@ def model(conf, tier, workdir, workers):
     return d
 
 
+def liveness(prop, conf, tier, workdir):
+    """C02 / C03 on the model, for INFINITE behaviours: TLC checks the temporal properties BothEnd (every transaction ends and
+    stays ended: no livelock of retransmissions, no endless respawning) and, where the hypotheses of C02 hold by construction,
+    Succeeds, under weak fairness of the system's own actions (Cfdp!Fair).  A model-level result: it transfers to the code
+    through the conformance check (no DRIFT).  Cached with the model."""
+    cmds = [tuple(x) for x in conf.get("cmds", [])]
+    handlers = conf["cfg"].get("handlers", {})
+    if any(c[1] in ("Suspend",) for c in cmds) or any(v in ("Ignore", "Suspend") for v in handlers.values()):
+        return None             # such a transaction legitimately waits for ever
+    faults = conf["faults"][0 if tier == "quick" else 1]
+    cfg = cfdpmodel.mkcfg(**conf["cfg"])
+    props = ["BothEnd"]
+    if prop == "C02" and not cmds and not conf.get("blackouts") and not conf.get("injects") and cfg["mode"] == "ack" and faults < cfg["limit"]:
+        props.append("Succeeds")
+    key = "live-%s-%s-%d-%s-%s" % (conf["name"], tier, faults, "+".join(props), spec_hash())
+    cp = os.path.join(CACHE, key + ".json")
+    if os.path.exists(cp):
+        with open(cp) as f:
+            return json.load(f)
+    mod, cfgp = cfdpmodel.write_mc("live_" + conf["name"].replace("-", "_"), cfg, faults, conf.get("cmds", []), conf.get("known", []),
+                                   os.path.join(workdir, "mc"), emit=False, blackouts=conf.get("blackouts", []),
+                                   injects=conf.get("injects", []), kinds=conf.get("kinds", cfdpmodel.ALLKINDS))
+    with open(cfgp, "w") as f:
+        f.write("SPECIFICATION LiveSpec\nVIEW View\nCHECK_DEADLOCK FALSE\n" + "".join("PROPERTY %s\n" % x for x in props))
+    r = tlc.run(mod, cfgp, os.path.join(workdir, "tlc-live-" + conf["name"]), workers=4, timeout=3600, xmx="8g")
+    d = {"config": conf["name"], "faults": faults, "properties": props, "states": r.distinct, "holds": bool(r.ok), "wall": round(r.wall, 1)}
+    if not r.ok:
+        d["tail"] = r.text[-3000:]
+    tmp = cp + ".tmp%d" % os.getpid()
+    with open(tmp, "w") as f:
+        json.dump(d, f)
+    os.replace(tmp, cp)
+    return d
+
+
 def configs_for(prop):
     return [c for c in load_configs() if prop in c["props"]]
 
@@ -103,8 +143,8 @@ def continuations(prop, conf, name, all_scripts, drifts, c, ncontin, log):
     for d in sorted(drifts, key=lambda d: d["line"]):
         groups.setdefault((d["action"], tuple(d["parts"])), d)
     out = []
-    for k, d in list(groups.items())[:6]:
-        if ncontin[0] >= 18:
+    for k, d in list(groups.items())[:4]:
+        if ncontin[0] >= 12:
             break
         ncontin[0] += 1
         script = all_scripts[d["id"]]
@@ -136,13 +176,21 @@ def collect(prop, tier, seed, c, only=None):
     # thorough bounds, looking for a real violation the quick bounds are too small to reach
     queue = [(conf, tier) for conf in confs]
     escalated = []
+    candidates = []
     ncontin = [0]
     contin_log = []
+    live = []
     while queue:
         conf, ctier = queue.pop(0)
-        if ctier != tier and viols:
-            continue            # the escalation looks for a violation; one has been found already
+        if viols:
+            break               # a violation on the real code has been found: report it without exploring the rest
         m = model(conf, ctier, os.path.join(c.work, "model"), workers)
+        if prop in ("C02", "C03") and ctier == tier and conf["name"] in LIVE_CONFIGS:
+            lv = liveness(prop, conf, ctier, os.path.join(c.work, "model"))
+            if lv:
+                live.append({k: lv[k] for k in lv if k != "tail"})
+                if not lv["holds"]:
+                    raise common.ToolError("the model does not satisfy %s in configuration %s:\n%s" % (lv["properties"], conf["name"], lv.get("tail", "")))
         states += m["states"]
         trans += m["transitions"]
         name = m["name"] + ("+" if ctier != tier else "")
@@ -164,7 +212,7 @@ def collect(prop, tier, seed, c, only=None):
         drifts += st["drift"]
         # DRIFT policy, step 1 (DESIGN.md 2.1): drift-directed continuation - TLC explores the model from the state the
         # real code is in after a drifting step; its counterexamples are replayed on the real code and judged there
-        if st["drift"] and not mine and not viols and ncontin[0] < 18:
+        if st["drift"] and not mine and not viols and ncontin[0] < 12:
             found = continuations(prop, conf, name, all_scripts, st["drift"], c, ncontin, contin_log)
             if found:
                 v2, st2 = pipe.run_scripts(found, os.path.join(c.work, "replay-" + name + "~contin"), shards=2)
@@ -178,11 +226,16 @@ def collect(prop, tier, seed, c, only=None):
                 viols += mine
                 common.log("%s %s: %d continuation(s) of drifting executions replayed on the real code, %d violation(s) of this property" % (
                     prop, name, len(found), len(mine)))
-        # step 2: a configuration in which the code left the model is explored again with the thorough bounds
-        if st["drift"] and not mine and ctier == "quick" and conf["faults"][1] > conf["faults"][0] and len(escalated) < 4:
-            escalated.append(conf["name"])
-            queue.append((conf, "thorough"))
-            common.log("%s %s: DRIFT without violation - escalating to the thorough bounds" % (prop, conf["name"]))
+        # step 2 (after the pass, see below): candidates for a second exploration with the thorough bounds
+        if st["drift"] and not mine and ctier == "quick" and ctier == tier and conf["faults"][1] > conf["faults"][0]:
+            candidates.append((len(st["drift"]) / max(st["events"], 1), m["states"], conf))
+        if not queue and candidates and not viols and not escalated:
+            # the configurations in which the code left the model most often, cheapest first among equals: at most 3
+            candidates.sort(key=lambda x: (-round(x[0], 2), x[1]))
+            for ratio, _, cf in candidates[:3]:
+                escalated.append(cf["name"])
+                queue.append((cf, "thorough"))
+                common.log("%s %s: DRIFT without violation (%.1f%% of the steps) - escalating to the thorough bounds" % (prop, cf["name"], 100 * ratio))
         # model violations of THIS property that are not recorded findings
         if any(t[0].startswith(prop + ":") for mv in m.get("mviol", []) for t in mv["viol"]):
             model_unknown.append(name)
@@ -198,7 +251,7 @@ def collect(prop, tier, seed, c, only=None):
             prop, name, m["states"], len(scripts), st["events"], len(mine), len(st["drift"])))
 
     # ---- Level D: the same monitor and conformance check on executions of real Daemons
-    rp, dsc = d_scenarios(prop, tier, seed, os.path.join(c.work, "dplans"))
+    rp, dsc = d_scenarios(prop, tier, seed, os.path.join(c.work, "dplans")) if not viols else (None, [])
     dres = dlevel.run(dsc, os.path.join(c.work, "d"), shards=14) if dsc else None
     dscen_by_id = {s["id"]: s for s in dsc}
     if dres:
@@ -251,6 +304,7 @@ def collect(prop, tier, seed, c, only=None):
         "drift": drifts[:20],
         "escalated_configs": escalated,
         "drift_continuations": contin_log,
+        "liveness_on_the_model": live,
         "property_tags": sorted(t for t in TAGS if t.startswith(prop + ":")),
         "level_d": None if not dres else {"fault_plans_from_tlc": rp.distinct, "daemon_scenarios": dres["scenarios"], "transactions_validated": dres["runs"],
                                           "events_validated": dres["events"], "daemon_events": dres["devents"], "drift_steps": len(dres["drift"]),
